@@ -438,6 +438,10 @@ type UnaryExpression struct {
 
 func (ue *UnaryExpression) WriteTo(cw *CodeWriter) {
 	cw.WriteLeadingComments(ue.Token.LeadingComments)
+	// keep `a - -b`, `a + ++b`, `- --b` from fusing into `a--b`, `a+++b`, `---b`
+	if op := ue.Operator; op != "" && (op[0] == '+' || op[0] == '-') && cw.lastByte() == op[0] {
+		cw.WriteRune(' ')
+	}
 	cw.AddMapping(ue.Token.Start)
 	cw.WriteString(ue.Operator)
 	// Right side needs parens if its precedence is lower than unary
